@@ -204,6 +204,12 @@ func updateRegex(filePath string, ruleId string, chainOffset uint8, newRegex str
 			break
 		}
 	}
+	if foundRule && chainOffset > 0 && chainOffset == chainCount && index+1 < len(lines) &&
+		regexp.MustCompile(`^\s*[^#\s].*\bid:\d+|^\s*id:\d+`).Match(lines[index+1]) {
+		// a SecRule line that is followed by an id action starts the next rule,
+		// it is not part of the chain of this rule
+		logger.Fatal().Msgf("Rule %s has no chained rule at offset %d in %s", ruleId, chainOffset, filePath)
+	}
 	if !foundRule || chainOffset != chainCount || index < 0 {
 		logger.Fatal().Msgf("Failed to find rule %s, chain offset, %d in %s", ruleId, chainOffset, filePath)
 	}
